@@ -2,6 +2,7 @@ package props
 
 import (
 	"fmt"
+	"go/constant"
 	"go/token"
 	"go/types"
 	"strings"
@@ -19,8 +20,9 @@ func checkC16(c *core.Ctx, r *core.Report) {
 		"(2) the OTLP log handler sets the event time from the record's time_unix_nano; " +
 		"(3) the timestamp argument of every metrics.EncodeDatapoint call depends on the payload and on no current-time source; " +
 		"(4) per-item attributes in the OTLP ingest loops are not carried over from the previous resource/scope (no string variable declared outside the per-resource loop and conditionally assigned inside it); " +
-		"(5) every protocol handler that builds an event goes through GetNewPLE with the configured timestamp key."
-	r.NotCovered = "field/attribute completeness, unit detection (seconds/millis/nanos) and number spellings of a timestamp, identifier encodings, the Splunk HEC `time` field (ignored by the handler: needs protocol knowledge, not code shape)"
+		"(5) every protocol handler that builds an event goes through GetNewPLE with the configured timestamp key; " +
+		"(6) the JSON-number branch of ExtractTimeStamp gives up (returns 0, which every caller replaces by the arrival time) only after a float-capable parser has been tried on the raw value: fractional and exponent spellings of an epoch are valid JSON numbers."
+	r.NotCovered = "field/attribute completeness, unit detection (seconds/millis/nanos) of a timestamp, string timestamp formats, identifier encodings, the Splunk HEC `time` field (ignored by the handler: needs protocol knowledge, not code shape)"
 
 	setTs := c.Obj(pkgWriter, "ParsedLogEvent.SetTimestamp")
 	getTs := c.Obj(pkgWriter, "ParsedLogEvent.GetTimestamp")
@@ -193,6 +195,115 @@ func checkC16(c *core.Ctx, r *core.Report) {
 		}
 	}
 	r.Floor("DEPENDS", "protocol handler GetNewPLE sites", nPle, 6)
+
+	// ---------------------------------------------------------------- (6)
+	{
+		fn := c.Fn(pkgUtils, "ExtractTimeStamp")
+		numK := c.ExtObj("github.com/buger/jsonparser", "Number")
+		var numVal int64 = -1
+		if k, ok := numK.(*types.Const); ok {
+			if v, ok := constInt64(k); ok {
+				numVal = v
+			}
+		}
+		// blocks of the number arm: dominated by the true edge of `dType == jp.Number`
+		var arm *ssa.BasicBlock
+		for _, b := range fn.Blocks {
+			ifi, ok := core.LastIf(b)
+			if !ok {
+				continue
+			}
+			bo, ok := ifi.Cond.(*ssa.BinOp)
+			if !ok || bo.Op != token.EQL {
+				continue
+			}
+			if k, ok := core.ConstIntValue(bo.Y); ok && k == numVal && numVal >= 0 {
+				if _, isParam := bo.X.(*ssa.Parameter); !isParam && len(b.Succs[0].Preds) == 1 {
+					arm = b.Succs[0]
+				}
+			}
+		}
+		construct := "utils.ExtractTimeStamp:number-branch-tries-a-float-parser-before-giving-up"
+		if arm == nil {
+			r.Undecided("DEPENDS", construct, c.Pos(fn.Pos()), "no branch on the JSON value type Number found")
+		} else {
+			floatCapable := func(ci ssa.CallInstruction) bool {
+				var rec func(f *ssa.Function, depth int) bool
+				name := func(ci ssa.CallInstruction) string {
+					if f := core.CalleeFunc(ci); f != nil {
+						return f.Name()
+					}
+					return ""
+				}
+				if n := name(ci); n == "ParseFloat" || n == "Float64" {
+					return true
+				}
+				seen := map[*ssa.Function]bool{}
+				rec = func(f *ssa.Function, depth int) bool {
+					if f == nil || depth > 2 || seen[f] || !core.IsRepoPkg(core.FnPkgPath(f)) {
+						return false
+					}
+					seen[f] = true
+					for _, cj := range core.CallsIn(f) {
+						if n := name(cj); n == "ParseFloat" || n == "Float64" {
+							return true
+						}
+						if rec(cj.Common().StaticCallee(), depth+1) {
+							return true
+						}
+					}
+					return false
+				}
+				return rec(ci.Common().StaticCallee(), 0)
+			}
+			var parsers []ssa.Instruction
+			for _, b := range fn.Blocks {
+				if !arm.Dominates(b) {
+					continue
+				}
+				for _, in := range b.Instrs {
+					if ci, ok := in.(ssa.CallInstruction); ok && floatCapable(ci) {
+						parsers = append(parsers, in)
+					}
+				}
+			}
+			bad := ""
+			nZero := 0
+			for _, ret := range core.Returns(fn) {
+				if !arm.Dominates(ret.Block()) {
+					continue
+				}
+				k, isK := core.ConstIntValue(ret.Results[0])
+				if !isK || k != 0 {
+					continue
+				}
+				nZero++
+				ok := false
+				for _, p := range parsers {
+					if core.InstrDominates(p, ret) {
+						ok = true
+					}
+				}
+				if !ok {
+					bad = c.Pos(ret.Pos())
+				}
+			}
+			switch {
+			case bad != "":
+				r.Violation("DEPENDS", construct, bad, "a JSON-number timestamp is given up (0 is returned, callers then store the arrival time) without trying a float-capable parser: an event whose time is written with a fraction or an exponent (1700000000.5, 1.7e12) loses its own time")
+			case len(parsers) == 0 && nZero == 0:
+				// no give-up path and no float parser: every number must still be convertible
+				r.Violation("DEPENDS", construct, c.Pos(arm.Instrs[0].Pos()), "the JSON-number branch never tries a float-capable parser")
+			default:
+				r.OK("DEPENDS", construct, c.Pos(arm.Instrs[0].Pos()), fmt.Sprintf("%d give-up return(s), each dominated by a float-capable parse of the value", nZero))
+			}
+		}
+	}
+}
+
+func constInt64(k *types.Const) (int64, bool) {
+	v, ok := constant.Int64Val(constant.ToInt(k.Val()))
+	return v, ok
 }
 
 func isNowSource(o types.Object) bool {
